@@ -152,6 +152,11 @@ class Monitor:
             good, reads = info["result"]
             if bool(good) != want_good:
                 self.viol("test verdict differs from the data before the request", "testv-verdict", {"got": good})
+                if not want_good and not unchanged:
+                    # "it applies none if any test fails": a test fails on the pre-state data, yet files changed
+                    touched = sorted(n for n in set(raw0) | set(raw1) if raw0.get(n) != raw1.get(n))
+                    self.viol("a request with a failing test vector applied writes", "failing-test-applied-writes",
+                              {"files_changed": touched})
             # reads reflect the data before the request, for every existing share
             if sorted(reads) != sorted(data0):
                 self.viol("read data cover the wrong set of shares", "read-share-set", {"got": sorted(reads), "want": sorted(data0)})
